@@ -132,6 +132,16 @@ pub fn deep_case(case: &Value, _dispatch: Dispatch, r: &mut Report) {
     match fam {
         "RecList" => check(fam, d, list(d), &b, all, r),
         "RecEvo" => check(fam, d, evo(d), &b, all, r),
+        "RecEvoAsList" => {
+            // written by the newer definition (a header and an added field at every level), read by version 0
+            r.count("deep_cross");
+            match guarded(|| (serialize_to_byte_vec(&evo(d)), deserialize::<RecList>(&b))) {
+                Ok((Ok(real), Ok(x))) if real == b && x == list(d) => {}
+                Ok((enc, dec)) => r.finding("deep_cross", &["C03", "C05"], json!({"family": fam, "d": d, "bytes_equal": enc.map(|x| x == b).ok(),
+                    "decoded": dec.map(|x| x == list(d)).map_err(|e| e.to_string())})),
+                Err(p) => r.finding("deep_cross", &["C05", "C03"], json!({"family": fam, "d": d, "panic": p})),
+            }
+        }
         "RecTree" => check(fam, d, tree(d), &b, all, r),
         "RecEnum" => check(fam, d, renum(d), &b, all, r),
         "arc" => check(fam, d, (1..=d as u32).map(Arc::new).collect::<Vec<Arc<u32>>>(), &b, false, r),
